@@ -179,6 +179,14 @@ func (t *Table) addGlobalIndex(gsiInput *types.GlobalSecondaryIndex) error {
 		return err
 	}
 
+	// items written before the index existed are part of it as well
+	for _, key := range t.SortedKeys {
+		if err := i.putData(key, t.Data[key]); err != nil {
+			// an item whose attribute does not have the declared type is not indexed
+			continue
+		}
+	}
+
 	t.Indexes[*gsiInput.IndexName] = i
 
 	return nil
